@@ -18,6 +18,11 @@ inductive Val where
   | slice (start stop step : Option Int)     -- slice objects with int-or-None fields
   | ilist (l : List Int)                     -- a list / tuple of ints (`tokens`, `var.shape`), bytes as ints
   | str (cs : List Nat)                      -- text as a list of code points
+  -- third round (loops over lists of records)
+  | slist (l : List (List Nat))              -- a non-empty list of strings (the empty list is `ilist []`)
+  | elem (attrs : List (List Nat × List Nat))            -- an XML element, as far as `.get(key)` goes
+  | elems (l : List (List (List Nat × List Nat)))        -- a list of XML elements (`findall`)
+  | sidict (d : List (List Nat × Int))       -- a dict str → int (unique keys)
 deriving DecidableEq, Repr, Inhabited
 
 inductive Err where
@@ -64,6 +69,9 @@ inductive Expr where
   | replace (e pat rep : Expr)                -- `e.replace(pat, rep)` (non-empty pattern)
   | concat (a b : Expr)                       -- `a + b` where one side is known to be text
   | findFrom (e pat : Expr) (start : Nat)     -- `e.find(pat, start)` (non-empty pattern)
+  | getAttr (e k : Expr)                      -- `e.get(k)` of an XML element: the attribute or None
+  | subscr (d k : Expr)                       -- `d[k]` of a dict str → int (KeyError when absent)
+  | emptyList                                 -- `[]` / `()`
 deriving Repr, Inhabited
 
 inductive Stmt where
@@ -73,6 +81,8 @@ inductive Stmt where
   | augAdd (x : String) (e : Expr)
   | ite (c : Expr) (t e : Stmt)
   | raise (cls : String)
+  | forIn (x : String) (e : Expr) (body : Stmt)   -- `for x in e: body` over a list value (no break)
+  | append (x : String) (e : Expr)                -- `x.append(e)` / `x += (e,)`
 deriving Repr, Inhabited
 
 abbrev Env := List (String × Val)
@@ -92,6 +102,10 @@ def truthy : Val → Bool
   | .slice _ _ _ => true
   | .ilist l => !l.isEmpty
   | .str cs => !cs.isEmpty
+  | .slist l => !l.isEmpty
+  | .elem _ => true            -- (ElementTree's own truth test, "has children", is not modelled; never used)
+  | .elems l => !l.isEmpty
+  | .sidict d => !d.isEmpty
 
 def asInt : Val → Except Err Int
   | .int i => .ok i
@@ -198,6 +212,28 @@ def strFind (s pat : List Nat) (start : Nat) : Except Err Int :=
     match findGo pat start (s.drop start) with
     | some i => .ok (i : Int)
     | none => .ok (-1)
+
+/-- the values a `for` statement iterates over -/
+def iterItems : Val → Except Err (List Val)
+  | .ilist l => .ok (l.map .int)
+  | .slist l => .ok (l.map .str)
+  | .elems l => .ok (l.map .elem)
+  | _ => .error .typeError
+
+/-- `l.append(v)` / `t += (v,)`; lists are homogeneous (ints or strings), the empty list is `ilist []` -/
+def appendVal : Val → Val → Except Err Val
+  | .ilist [], .str s => .ok (.slist [s])
+  | .ilist l, .int i => .ok (.ilist (l ++ [i]))
+  | .slist l, .str s => .ok (.slist (l ++ [s]))
+  | _, _ => .error .unsupported
+
+def assocStr : List (List Nat × List Nat) → List Nat → Val
+  | [], _ => .none
+  | (k, v) :: t, x => if k = x then .str v else assocStr t x
+
+def assocInt : List (List Nat × Int) → List Nat → Except Err Val
+  | [], _ => .error .keyError
+  | (k, v) :: t, x => if k = x then .ok (.int v) else assocInt t x
 
 def prodInts : List Int → Int
   | [] => 1
@@ -349,6 +385,15 @@ def eval (env : Env) : Expr → Except Err Val
       match (← eval env e), (← eval env pat) with
       | .str s, .str p => .ok (.int (← strFind s p start))
       | _, _ => .error .unsupported
+  | .getAttr e k => do
+      match (← eval env e), (← eval env k) with
+      | .elem attrs, .str key => .ok (assocStr attrs key)
+      | _, _ => .error .unsupported
+  | .subscr d k => do
+      match (← eval env d), (← eval env k) with
+      | .sidict tbl, .str key => assocInt tbl key
+      | _, _ => .error .unsupported
+  | .emptyList => .ok (.ilist [])
 
 def exec (env : Env) : Stmt → Except Err Env
   | .skip => .ok env
@@ -361,6 +406,13 @@ def exec (env : Env) : Stmt → Except Err Env
   | .ite c t e => do
       if truthy (← eval env c) then exec env t else exec env e
   | .raise cls => .error (.raised cls)
+  | .forIn x e body => do
+      let items ← iterItems (← eval env e)
+      items.foldlM (fun env v => exec (setVar env x v) body) env
+  | .append x e => do
+      let l ← lookup env x
+      let v ← eval env e
+      .ok (setVar env x (← appendVal l v))
 
 /-- the value bound to `x` after running `body` from `env` -/
 def runItem (env : Env) (body : Stmt) (x : String) : Except Err Val :=
